@@ -703,7 +703,11 @@ def gen_shapes(ck, rng, tier, sd):
                   struct.pack("<I", 33) + b"A", struct.pack("<I", 33) + b"unterminated",
                   struct.pack("<I", 33) + b"x" * 300, struct.pack("<I", 33) + b"x" * 300 + b"\0",
                   struct.pack("<I", 33) + b"x" * 5000 + b"\0", struct.pack("<I", 33) + b"%s%s%n\0",
-                  struct.pack("<I", 0) + b"zero id\0"]
+                  struct.pack("<I", 0) + b"zero id\0",
+                  # labels around the sizes of the tools' line buffers (1 KiB): a few bytes past the end is what
+                  # the sanitizer's red zones see, thousands of bytes past it may land in another frame
+                  struct.pack("<I", 33) + b"y" * 1000 + b"\0", struct.pack("<I", 33) + b"y" * 1030 + b"\0",
+                  struct.pack("<I", 33) + b"y" * 4090 + b"\0"]
         for k, jd in enumerate(labels):
             if tier == "quick" and not c["jumbo"] and k not in (0, 3, 6, 8):
                 continue
